@@ -7,7 +7,7 @@ re-pointing pc at the INPUT opcode); the text-to-number path shared with VAL.
 Does not decide reply parsing over all strings."""
 import re
 
-from rules import tables
+from rules import common, tables
 
 
 def run(ctx):
@@ -244,6 +244,26 @@ def rule_e(ctx, cr):
               "INPUT decides `string field` from a `$` at the end of the variable's name: a "
               "variable made a string by DEFSTR gets its reply converted to a number, so a reply "
               "like 5 is a TYPE MISMATCH (REDO FROM START for ever) and enclosing quotes are kept")
+    # one pair of enclosing quotes: text[1 .. len-1] (or strip_prefix + strip_suffix)
+    ix = [c for c in r.calls_matching(r"<impl std::ops::Index<I> for str>::index$")]
+    sps = r.calls_matching(r"<impl str>::strip_(prefix|suffix)$")
+    for c2 in cr.closures_of(r.path):
+        sps = sps + c2.calls_matching(r"<impl str>::strip_(prefix|suffix)$")
+    if ix:
+        for n, c in enumerate(ix, 1):
+            v = r.value_of_operand(c.args[1])
+            d = [r.describe(o) for o in v["rv"]["ops"]] if v and v.get("k") == "rv" and \
+                v["rv"]["k"] == "aggregate" and len(v["rv"].get("ops", ())) == 2 else None
+            ok = bool(d) and d[0] == "const:1" and \
+                re.match(r"^\(call:core::str::<impl str>::len\(.*\) Sub(WithOverflow)? const:1\)$", d[1])
+            ctx.check(bool(ok), "C17.e", "input/strips-one-quote-pair#%d" % n, c.span,
+                      "the quoted field keeps text[1 .. len-1]",
+                      "the quoted reply is cut as %s, not 1..len-1: a quote stays in the value "
+                      "or a character is lost" % (d,))
+    else:
+        ctx.check(len(sps) >= 2, "C17.e", "input/strips-one-quote-pair", r.span,
+                  "enclosing quotes are removed by strip_prefix/strip_suffix",
+                  "no removal of the enclosing quotes found in Runtime::input")
     tr = r.calls_matching(r"<impl str>::trim$")
     ctx.check(len(tr) == 1, "C17.e", "input/trims-field", r.span, "surrounding blanks are stripped")
     f = cr.need_fn("<mach::val::Val as std::convert::From<&str>>::from")
@@ -259,6 +279,12 @@ def rule_e(ctx, cr):
               "&H / & digits are parsed from the unmodified text",
               "the hexadecimal/octal branch parses text that was rewritten first (lines %s): hex "
               "digits that are also exponent letters (D, E) change value" % bad)
+    for n, c in enumerate(radix, 1):
+        cj = common.conjoined_case_tests(f, c.bb)
+        ctx.check(not cj, "C17.e", "Val::from/radix#%d/prefix-cases-are-alternatives" % n, c.span,
+                  "the prefix letter is accepted in either case",
+                  "the radix branch requires the prefix letter in both cases at once %s: it is "
+                  "never taken and &H.. replies are read as octal or as text" % cj)
     sp = f.calls_matching(r"<impl str>::strip_prefix$")
     rep = f.calls_matching(r"<impl str>::replace$")
     ctx.check(len(sp) == 1 and all(f.dominates(sp[0].bb, c.bb) for c in rep), "C17.e",
